@@ -48,7 +48,16 @@ def build(tier, work, builder):
     slices += [tp, hp]
     fs = flat_funcs()
     write(work, "tc_funcs.inc", "\n".join(f.text for f in fs) + "\n")
-    slices += fs
+    # modular variant for the inline-if job: the callers' calls of areEquivalent go to its top-level contract
+    fm = flat_funcs()
+    n = 0
+    for f in fm:
+        if f.name != "TypeChecker::areEquivalent" and f.name != "channelCapability":
+            f.sub("L12c:areEquivalent->top-level contract", r"(?<![\w:])(?:TypeChecker::)?areEquivalent\(", "areEquivalent__top(", required=False)
+            n += f.rules.get("L12c:areEquivalent->top-level contract", 0)
+    if n < 4:
+        raise X.ExtractionBroken(f"C14: expected >= 4 calls of areEquivalent in its callers, found {n}")
+    write(work, "tc_funcs_mod.inc", "\n".join(f.text for f in fm) + "\n")
     mini, sl = T.mini_check_expression(["PLUS", "MULT", "EQ", "NEQ", "AND", "OR", "BIT_AND", "INLINE_IF"])
     write(work, "mini_ce.inc", mini)
     slices += sl
@@ -56,6 +65,7 @@ def build(tier, work, builder):
     tcobj = builder.cc(os.path.join(CDIR, "tc14.cpp"), includes=[work, os.path.join(X.REPO, "include")], cpp=True)
     hobj = builder.cc(os.path.join(CDIR, "h_c14.c"), includes=[work], defines=["EXCLUDE_KF"])
     hobj_kf = builder.cc(os.path.join(CDIR, "h_c14.c"), includes=[work])
+    tcmod = builder.cc(os.path.join(CDIR, "tc14.cpp"), includes=[work, os.path.join(X.REPO, "include")], cpp=True, defines=["C14_MODULAR"])
     jobs = []
     for op in OPS:
         fns = [f"TypeChecker::checkExpression case {op} + epilogue"]
@@ -63,9 +73,17 @@ def build(tier, work, builder):
             fns += ["TypeChecker::areEqCompatible", "TypeChecker::areEquivalent (top level)"]
         if op == "INLINE_IF":
             fns += ["TypeChecker::getInlineIfCommonType", "TypeChecker::areInlineIfCompatible", "TypeChecker::areAssignmentCompatible", "TypeChecker::areEquivalent (top level)"]
-        jobs.append(F.Job(f"c14_swap_{op}", f"h_c14_swap_{op}", [tcobj, hobj], timeout=300, unwind=3, object_bits=12, functions=fns,
+        if op == "INLINE_IF":
+            jobs.append(F.Job(f"c14_swap_{op}", f"h_c14_swap_{op}", [tcmod, hobj], timeout=900, unwind=3, object_bits=12, functions=fns[:-1],
+                              note="both branch orders on the same pair of arbitrary flat types; modular: areEquivalent is used through its contract (S)(K)(P), which c14_equiv_contract proves on the real function"))
+            continue
+        jobs.append(F.Job(f"c14_swap_{op}", f"h_c14_swap_{op}", [tcobj, hobj], timeout=900, unwind=3, object_bits=12, functions=fns,
                           bound_note="record width <= 2 in areEquivalent's field loop; sub-structure pool of 4 abstract types",
                           note="both operand orders on the same pair of arbitrary flat types"))
+    jobs.append(F.Job("c14_equiv_contract", "h_c14_equiv_contract", [tcobj, hobj], timeout=900, unwind=3, object_bits=12,
+                      functions=["TypeChecker::areEquivalent (top level; recursion by symmetric contract)", "channelCapability"],
+                      bound_note="record width <= 2 in areEquivalent's field loop; sub-structure pool of 4 abstract types",
+                      note="callee obligation of the modular inline-if job: (S) symmetric, (K) same base kind, (P) primitive double"))
     # ---- part B: isSameScalarType on real type nodes ------------------------------------------
     from checks import type_common as TY
     tc = TY.type_class(); write(work, "type_class.inc", tc.text); slices.append(tc)
@@ -84,7 +102,7 @@ def build(tier, work, builder):
     jobs.append(F.Job("c14_same_scalar", "h_c14_same_scalar", [tyobj, hty], timeout=300, unwind=8,
                       functions=["isSameScalarType (typechecker.cpp, one level; recursion by symmetric contract)", "type_t::get_kind / operator[] / get_label / get_range (real)"],
                       bound_note="one level of nesting per side (induction step)"))
-    jobs.append(F.Job("c14_kf1_swap_INLINE_IF", "h_c14_swap_INLINE_IF", [tcobj, hobj_kf], timeout=600, unwind=3, object_bits=12,
+    jobs.append(F.Job("c14_kf1_swap_INLINE_IF", "h_c14_swap_INLINE_IF", [tcmod, hobj_kf], timeout=900, unwind=3, object_bits=12,
                       functions=["TypeChecker::getInlineIfCommonType"], known={r"c14\.swap\.result-kind-is-symmetric": "C14-KF1"},
                       note="same harness without the exclusion of the known-finding class"))
     return {
